@@ -91,16 +91,28 @@ def domination_monitor(ctx):
                              "fourier_cutoff": key[3], "position_cutoff": key[4], "seed": ctx.rng.randrange(1 << 30),
                              "n": n // nchunks, "strata": STRATA, "top": 12,
                              "peaks": [[0.0, 0.5, 0.5], [0.0, -0.5, 0.5], [0.5, 0.0, 0.5], [0.5, 0.5, 0.0]],
-                             "floor": ABS_FLOOR, "configs": [s["ini"] for s in ss]})
+                             "floor": ABS_FLOOR, "configs": [s["ini"] for s in ss],
+                             "deepcopy": c % 2 == 1})       # every other chunk through copy.deepcopy of the potentials
     outs = C.run_driver_parallel(ctx, "c04_thinning", jobs, timeout=1700)
     res = {"neval": 0, "npos": 0, "violations": [], "max_ratio": 0.0, "max_at": None, "hist": [0] * 22,
-           "residues": 0, "max_residue": 0.0, "combos": [], "jobs": len(jobs), "max_clean": 0.0, "max_clean_at": None}
+           "residues": 0, "max_residue": 0.0, "combos": [], "jobs": len(jobs), "max_clean": 0.0, "max_clean_at": None,
+           "neval_deepcopy": 0, "copy_compared": 0, "copy_mismatch": []}
     per_combo = {}
     for job, o in zip(jobs, outs):
         o = o["out"]
         L = b2f(job["L"])
         res["neval"] += o["neval"]
         res["npos"] += o["npos"]
+        if o.get("deepcopy"):
+            res["neval_deepcopy"] += o["neval"]
+            res["copy_compared"] += o["copy_compared"]
+            for pt, d, ch, t, b, t0, b0 in o["copy_mismatch"]:
+                res["copy_mismatch"].append({
+                    "L": L, "separation": [b2f(x) for x in pt], "separation_bits": pt, "direction": d, "charges": ch,
+                    "true_derivative_of_deep_copy": b2f(t), "true_derivative_configured": b2f(t0),
+                    "bounding_derivative_of_deep_copy": b2f(b), "bounding_derivative_configured": b2f(b0),
+                    "kb": job["kb"], "km": job["km"], "configs": job["configs"],
+                    "mic": [job["alpha"], job["fourier_cutoff"], job["position_cutoff"]]})
         res["residues"] += o.get("residues", 0)
         res["max_residue"] = max(res["max_residue"], b2f(o.get("max_residue", 0)) * L * L)
         for i, h in enumerate(o["hist"]):
@@ -109,7 +121,8 @@ def domination_monitor(ctx):
         for score, rec in o["top"]:
             pt, d, ch, t, b = rec
             t, b = b2f(t), b2f(b)
-            where = {"L": L, "separation": [b2f(x) for x in pt], "separation_bits": pt, "direction": d, "charges": ch,
+            where = {"deepcopy": bool(o.get("deepcopy")),
+                     "L": L, "separation": [b2f(x) for x in pt], "separation_bits": pt, "direction": d, "charges": ch,
                      "true_derivative": t, "bounding_derivative": b, "kb": job["kb"], "km": job["km"],
                      "configs": job["configs"], "mic": [job["alpha"], job["fourier_cutoff"], job["position_cutoff"]]}
             if exceeds(t, b, L):
@@ -131,9 +144,17 @@ def domination_monitor(ctx):
 def replay_dom(ctx, where):
     job = {"mode": "dom", "L": f2b(where["L"]), "kb": where["kb"], "km": where["km"], "alpha": where["mic"][0],
            "fourier_cutoff": where["mic"][1], "position_cutoff": where["mic"][2], "seed": 1,
-           "points": [where["separation_bits"]], "top": 12, "all_charges": True, "floor": ABS_FLOOR}
+           "points": [where["separation_bits"]], "top": 12, "all_charges": True, "floor": ABS_FLOOR,
+           "deepcopy": bool(where.get("deepcopy"))}
     o = C.run_driver(ctx, "c04_thinning", job)["out"]
     bad = []
+    if where.get("copy_mismatch"):
+        # replay of a deep-copy mismatch: every evaluation of the copy is compared
+        job2 = dict(job, points=[where["separation_bits"]] * 4)
+        o2 = C.run_driver(ctx, "c04_thinning", job2)["out"]
+        if o2["copy_mismatch"]:
+            return [where]
+        return []
     for score, rec in o["top"]:
         pt, d, ch, t, b = rec
         if exceeds(b2f(t), b2f(b), where["L"]):
@@ -218,6 +239,7 @@ def gen_case(rng, fam, L, npr):
     if rng.random() < 0.3:
         umodes.append(["tie", rng.choice([-3, 2, 5])])
     return {"state": state, "expo": expo, "umodes": umodes, "use_charge": rng.random() < 0.9,
+            "deep": rng.random() < 0.5,      # the handler is copy.deepcopy'd after initialisation (Tagger.initialize)
             "lifting": rng.choice(["ratio", "inside_first"]), "row_u": f2b(rng.random())}
 
 
@@ -269,6 +291,15 @@ def oracle(cfg, case, res):
             r += b2f(c["res"])
     else:
         r = b2f(pot_calls[-1]["res"])
+    # --- the rates must be those of the CONFIGURED potentials (freshly constructed, never copied)
+    for name, calls in (("true", pot_calls), ("bounding", res["bnd_calls"])):
+        for c in calls:
+            if "ref" in c and c["ref"] != c["res"]:
+                return "confirmation probability is not max(0, true rate)/bounding rate of the configured potential: " \
+                       "the handler%s obtained the %s rate %r, a freshly constructed potential of the same " \
+                       "configuration gives %r at the same separation" % (
+                           " (a copy.deepcopy of the configured handler)" if res.get("deep") else "", name,
+                           b2f(c["res"]), b2f(c["ref"])), None
     # --- glue: separations are minimum-image vectors between the EVENT positions; charges in leaf-unit order
     m = check_glue(cfg, case, res, lin, active, composite)
     if m:
@@ -315,7 +346,8 @@ def oracle(cfg, case, res):
             return "confirmed event did not hand the active velocity to exactly one leaf unit", None
         if not composite and newact[0]["id"] == active["id"]:
             return "confirmed two-leaf event left the velocity on the active unit", None
-    return None, {"fam": "FComposite" if composite else "FLeaf", "x": 0.0 if x is None else x, "r": r,
+    return None, {"deep": bool(res.get("deep")),
+                  "fam": "FComposite" if composite else "FLeaf", "x": 0.0 if x is None else x, "r": r,
                   "conf": moved, "vin": vin, "vout": vout, "b": b2f(unis[0][1]) if unis else None,
                   "drawn": bool(unis)}
 
@@ -455,6 +487,7 @@ def run(ctx, replay_data=None):
                             stats["failed"] = stats.get("failed", 0) + 1
                             continue
                         summaries.append(s)
+                        stats["deep"] = stats.get("deep", 0) + (1 if s["deep"] else 0)
                         stats["confirmed"] += 1 if s["conf"] else 0
                         stats["ties"] += 1 if s["drawn"] and s["x"] == max(0.0, s["r"]) else 0
                         stats["negative_rate"] += 1 if s["r"] <= 0 else 0
@@ -491,6 +524,17 @@ def run(ctx, replay_data=None):
         C.violation(ctx, "oracle", {"kind": "c04-handler", "payload": payload, "message": m,
                                     "n_failing": stats.get("failed", len(fails)), "family": cfg["family"]},
                     "C04 fails on the implementation (%s handler): %s" % (cfg["family"], m))
+    elif dom is not None and dom["copy_mismatch"]:
+        w = dict(dom["copy_mismatch"][0], copy_mismatch=True, deepcopy=True)
+        C.violation(ctx, "deepcopy", {"kind": "c04-domination", "where": w,
+                                      "message": "a copy.deepcopy of the potentials (as Tagger.initialize makes of every "
+                                                 "2nd..n-th event handler) reports other rates than the configured "
+                                                 "potential", "n_points": len(dom["copy_mismatch"])},
+                    "C04 fails: deep-copied potential gives true rate %r (bounding %r), the configured potential %r "
+                    "(bounding %r) at separation %r, L=%r: the confirmation probability of a deep-copied handler is not "
+                    "max(0, true rate)/bounding rate" % (
+                        w["true_derivative_of_deep_copy"], w["bounding_derivative_of_deep_copy"],
+                        w["true_derivative_configured"], w["bounding_derivative_configured"], w["separation"], w["L"]))
     elif dom_viol:
         w = dom_viol[0]
         C.violation(ctx, "domination", {"kind": "c04-domination", "where": w, "n_points": len(dom_viol),
@@ -523,6 +567,7 @@ def run(ctx, replay_data=None):
                 "evaluates the lattice-sum derivative at a random event position",
         "samples": [{k: s[k] for k in ("fam", "x", "r", "b", "conf")} for s in summaries[:5]],
         "input_distribution": {"handler_runs": stats["runs"], "by_family": stats["by_family"],
+                               "handler_runs_on_copy.deepcopy(handler)": stats.get("deep", 0),
                                "confirmed": stats["confirmed"], "ties_x_equals_rate": stats["ties"],
                                "true_rate_not_positive": stats["negative_rate"],
                                "runs_with_true_rate_above_bound (lowered prefactor on purpose)": stats["exceeded"],
@@ -534,6 +579,9 @@ def run(ctx, replay_data=None):
         "domination_monitor": None if dom is None else {
             "status": "sampled, not proved",
             "evaluations": dom["neval"], "with_positive_true_rate": dom["npos"], "violations": len(dom["violations"]),
+            "evaluations_through_copy.deepcopy_of_the_potentials": dom["neval_deepcopy"],
+            "deep_copy_vs_configured_compared_bitwise": dom["copy_compared"],
+            "deep_copy_mismatches": len(dom["copy_mismatch"]),
             "largest_ratio_true_over_bound": dom["max_ratio"],
             "largest_ratio_at": None if dom["max_at"] is None else {
                 k: dom["max_at"][k] for k in ("L", "separation", "direction", "charges", "kb", "km")},
